@@ -566,6 +566,55 @@ fn display_and_order<T: NT>(mode: Mode, rng: &mut Rng, rep: &mut Report, st: &mu
             );
         }
     }
+    // Display under format specifications (width, fill, alignment, sign, zero flag, precision,
+    // alternate): whatever padding or sign the implementation chooses to honour, the digits
+    // printed are the decimal value — nothing cut off, nothing added
+    macro_rules! spec {
+        ($x:expr, $v:expr, $fmt:literal, $fill:expr, $zero:expr) => {{
+            buf.clear();
+            let x = $x;
+            let r = api("Display for <restricted integer> (format specification)", || write!(buf, $fmt, x).is_ok());
+            st.evals += 1;
+            let fill: char = $fill;
+            let mut t = buf.as_str().trim_matches(|c: char| c == fill || c == ' ');
+            t = t.strip_prefix('+').unwrap_or(t);
+            if $zero || fill == '0' {
+                let z = t.trim_start_matches('0');
+                t = if z.is_empty() && !t.is_empty() { "0" } else { z };
+            }
+            dec.clear();
+            let _ = write!(dec, "{}", $v);
+            if r != Some(true) || t != dec.as_str() {
+                crate::viol!(
+                    rep,
+                    format!("C05:display-with-format-spec:{}", T::NAME),
+                    format!("Display of {:?} with the format specification {:?} printed {:?} (digits {:?}), expected the digits {:?}", x, $fmt, buf.as_str(), t, dec.as_str()),
+                    json!({"kind":"display-spec","type":T::NAME,"input":$v,"spec":$fmt}),
+                );
+            }
+        }};
+    }
+    let step = if T::MAXV > 127 { 7 } else { 1 };
+    let mut v = 0u32;
+    while v <= T::MAXV {
+        for w in [v, T::MAXV - v] {
+            let x = T::make(w);
+            spec!(x, w, "{:7}", ' ', false);
+            spec!(x, w, "{:<7}", ' ', false);
+            spec!(x, w, "{:^9}", ' ', false);
+            spec!(x, w, "{:*>8}", '*', false);
+            spec!(x, w, "{:07}", ' ', true);
+            spec!(x, w, "{:+}", ' ', false);
+            spec!(x, w, "{:#}", ' ', false);
+            spec!(x, w, "{:.0}", ' ', false);
+            spec!(x, w, "{:.1}", ' ', false);
+            spec!(x, w, "{:.3}", ' ', false);
+            spec!(x, w, "{:8.2}", ' ', false);
+            spec!(x, w, "{:+09.4}", ' ', true);
+            spec!(x, w, "{:1}", ' ', false);
+        }
+        v += step;
+    }
     // ordering / equality agree with the numeric value
     let check_pair = |a: u32, b: u32, rep: &mut Report, st: &mut Stats| {
         let (x, y) = (T::make(a), T::make(b));
